@@ -153,6 +153,14 @@ def run_case(ctx, case):
                 return o.viol("rt|decode|priv-%s-%s" % (fmt, par), "%s: own encoding not decoded: %r" % (what, e))
             if back != sk or back.privkey.secret_multiplier != d or back.curve != cur:
                 return o.viol("rt|differs|priv", "%s: decode(encode(k)) != k" % what)
+            # the decoded key is the same key in every respect: encoded again in the default form it gives the default encoding
+            # of the original (an equal-looking key on an anonymous copy of the curve would not)
+            try:
+                again = back.to_der()
+            except Exception as e:
+                return o.viol("rt|reencode-raises|priv", "%s: the decoded key cannot be encoded in the default form: %r" % (what, e))
+            if again != sk.to_der():
+                return o.viol("rt|reencode|priv", "%s: the decoded key re-encodes (default form) to other bytes than the original key" % what)
             pem = sk.to_pem(point_encoding=pe, format=fmt, curve_parameters_encoding=par)
             if SigningKey.from_pem(pem) != sk:
                 return o.viol("rt|differs|priv-pem", "%s: PEM round trip differs" % what)
@@ -173,6 +181,12 @@ def run_case(ctx, case):
                 return o.viol("rt|decode|pub-%s-%s" % (par, pe), "%s: own encoding not decoded: %r" % (what, e))
             if back != vk or back.curve != cur:
                 return o.viol("rt|differs|pub", "%s: decode(encode(k)) != k" % what)
+            try:
+                again = back.to_der()
+            except Exception as e:
+                return o.viol("rt|reencode-raises|pub", "%s: the decoded key cannot be encoded in the default form: %r" % (what, e))
+            if again != vk.to_der():
+                return o.viol("rt|reencode|pub", "%s: the decoded key re-encodes (default form) to other bytes than the original key" % what)
             if VerifyingKey.from_pem(vk.to_pem(point_encoding=pe, curve_parameters_encoding=par)) != vk:
                 return o.viol("rt|differs|pub-pem", "%s: PEM round trip differs" % what)
             try:
@@ -242,6 +256,12 @@ def run_case(ctx, case):
             return o.viol("gen|differs|%s" % form, "%s: decoded key differs" % what)
         if private and k.privkey.secret_multiplier != d:
             return o.viol("gen|differs|%s" % form, "%s: decoded private scalar differs" % what)
+        try:
+            again = k.to_der()
+        except Exception as e:
+            return o.viol("gen|reencode-raises|%s" % form, "%s: the decoded key cannot be encoded in the default form: %r" % (what, e))
+        if again != (base if private else D.spki(Q[0], Q[1], size, cur.oid)):
+            return o.viol("gen|reencode-default|%s" % form, "%s: the decoded key's default encoding differs from the reference named-curve encoding" % what)
         if form == "sec1" and k.to_der() != der:
             return o.viol("gen|reencode|sec1", "%s: re-encoding is not byte-identical to OpenSSL's" % what)
         if form == "pub" and k.to_der() != der:
